@@ -374,7 +374,7 @@ impl<L: ChainListener> ChainTracker<L> {
 
         let mut prev_headers = supplied_prev_headers;
 
-        let tip_block_hash = prev_headers.0.block_hash();
+        let tip_block_hash = self.tip.0.block_hash();
         self.maybe_finish_decoding_block(&proof, &tip_block_hash)?;
 
         // we assume here that the external block hash and the tip block hash are the same
